@@ -94,13 +94,13 @@ impl TimeFilter for ts::TimeSpan {
             if start < end {
                 end
             } else {
-                end.add_hours(24)
-                    .expect("overflow during TimeSpan resolution")
+                // Events with an offset may already be past midnight (eg. "(dusk+24:00)-26:00")
+                end.add_hours(24).unwrap_or(ExtendedTime::MIDNIGHT_48)
             }
         };
 
-        assert!(start <= end);
-        start..end
+        // The range may still be empty (eg. "(dusk+24:00)-(dawn+01:00)")
+        start..std::cmp::max(start, end)
     }
 }
 
